@@ -217,10 +217,14 @@ type world struct {
 	jobStarts []jobStart
 	merges     []string // "(segment,stage)" in delivery order of MsgMergeFinished
 	mergeUnits []stage.Unit
+	mergeNextBefore   int  // segmentCompleted+1 of the unit's stage when the last MsgMergeFinished arrived
+	mergeWasCompleted bool // the unit of the last MsgMergeFinished was already Completed when the message arrived
 	steps     int
 	ended     string // "", "quit:nil", "quit:err", "panic:<where>"
 	panicMsg  string
 	sent      int // BlockScopedData messages streamed by the walker
+	lsValid   bool
+	lsFulls, lsParts, lsOuts []string
 	initErr   string
 }
 
@@ -400,6 +404,10 @@ func (w *world) outputExists(start, end uint64) bool {
 // listFiles walks the real directory: full-kv and output files, canonical + sorted (partials are listed
 // separately: whether the squasher deletes a partial when a full snapshot also exists is a race in the code).
 func (w *world) listFiles() (fulls, partials, outputs []string) {
+	if w.lsValid { // the directory only changes when a job or a merge command runs (step invalidates)
+		return w.lsFulls, w.lsParts, w.lsOuts
+	}
+	defer func() { w.lsFulls, w.lsParts, w.lsOuts, w.lsValid = fulls, partials, outputs, true }()
 	hashes := w.graph.ModuleHashes()
 	for j, ms := range w.stages {
 		for i, m := range ms {
@@ -617,6 +625,9 @@ func (w *world) step(idx int, elapsed bool) (kind string) {
 	w.bag = append(append([]loop.Cmd{}, w.bag[:idx]...), w.bag[idx+1:]...)
 	w.steps++
 	tag := cmdTag(c)
+	if tag == "J" || tag == "G" {
+		w.lsValid = false
+	}
 	var msg loop.Msg
 	if tag == "T" {
 		// loop.Tick(1s, fn): the only Tick the scheduler creates answers MsgScheduleNextJob; not slept.
@@ -669,6 +680,8 @@ func (w *world) step(idx int, elapsed bool) (kind string) {
 		kind += fmt.Sprintf("mergeFinished(%d,%d)", m.Unit.Segment, m.Unit.Stage)
 		w.merges = append(w.merges, fmt.Sprintf("(%d,%d)", m.Unit.Segment, m.Unit.Stage))
 		w.mergeUnits = append(w.mergeUnits, m.Unit)
+		w.mergeWasCompleted = w.sched.Stages.VerifUnitState(m.Unit) == stage.UnitCompleted
+		w.mergeNextBefore = w.sched.Stages.VerifSegmentCompleted(m.Unit.Stage) + 1
 	case stage.MsgMergeFailed:
 		kind += fmt.Sprintf("mergeFailed(%d,%d)", m.Unit.Segment, m.Unit.Stage)
 		w.panicMsg = m.Error.Error()
